@@ -21,11 +21,17 @@ YAML_HOSTILE = [
     "example.com/x: y", "example.com/x #frag", "*anchor", "&anchor", "!tag", "|literal", ">folded", "'single", '"double',
     "%percent", "@at", "`tick", "{a: b}", "[a, b]", "null", "~", "true", "no", "yes", "123", "1.5", "0x1F", "1e3",
     " leading", "trailing ", "tab\tinside", "ünïcödé/пакет", "a" * 300, "? q", "a, b", "x:y", "key:", ":", "#", "a\\b",
-    "a\"b'c", "- dash", "example.com/a b/c", "2024-01-01", "=", "<<", "a\nb", "é", "a: |", "x y", "{{.X}}",
+    "a\"b'c", "- dash", "example.com/a b/c", "2024-01-01", "=", "<<", "a\nb", "\nleading-line-break", "\t tab-then\nbreak", "é", "a: |", "x y", "{{.X}}",
 ]
 
 TARGETS = ["default", "nested", "absolute", "yaml", "dotslash"]
 STATES = ["absent", "empty", "bytes", "valid", "directory", "dangling", "readonly", "noparent"]
+
+
+def roundtrip_key(pkg):
+    if "\n" in pkg:
+        return "init-roundtrip:class=contains-line-break"
+    return "init-roundtrip:pkg=%s" % pkg
 
 
 def y2j(path):
@@ -165,14 +171,14 @@ def eval_case(ctx, case):
                                 dict(obs, **r.brief()), tags)
     doc, err = y2j(target)
     if doc is None or not isinstance(doc, dict):
-        return Verdict.violated("written file is not loadable YAML: %s" % err, dict(obs, content=open(target, errors="replace").read()[:800]), tags)
+        return Verdict.violated("written file is not loadable YAML: %s" % err, dict(obs, content=open(target, errors="replace").read()[:800], kf_key=roundtrip_key(pkg)), tags)
     for k, v in DOCUMENTED_DEFAULTS.items():
         if doc.get(k) != v:
             return Verdict.violated("documented default %s=%r, file states %r" % (k, v, doc.get(k)), obs, tags)
     pk = doc.get("packages")
     if not isinstance(pk, dict) or list(pk.keys()) != [pkg]:
         return Verdict.violated("package key does not load back unchanged: wrote %r, file yields %r" % (pkg, list(pk.keys()) if isinstance(pk, dict) else pk),
-                                dict(obs, content=open(target, errors="replace").read()[-600:], kf_key="init-roundtrip:pkg=%s" % pkg), tags)
+                                dict(obs, content=open(target, errors="replace").read()[-600:], kf_key=roundtrip_key(pkg)), tags)
     if (pk[pkg] or {}).get("config", {}).get("all") is not True:
         return Verdict.violated("package entry does not state all: true: %r" % pk[pkg], obs, tags)
     # accepted by mockery itself (strict loader)
